@@ -45,8 +45,8 @@ def k1_verdict_corpus(ctx):
                          depth=rnd.randint(0, 3), nleaves=rnd.randint(1, 5), nevents=rnd.randint(0, 3),
                          data=rnd.choice(['none', 'some', 'all']), hooks=rnd.randint(0, 3),
                          payload=rnd.choice(['none', 'mixed', 'all']), super_data=rnd.random() < 0.2, cross_kind=rnd.random() < 0.3, hook_event=rnd.random() < 0.3,
-                         ctx_ty=rnd.choice(['Ctx', 'Ctx', '()', 'u8', 'crate::Ctx', '(u8, u16)']),
-                         pl_ty=rnd.choice(['P', 'P', 'C', '()', "&'static str", 'u8']),
+                         ctx_ty=rnd.choice(['Ctx', 'Ctx', '()', 'u8', 'crate::Ctx', '(u8, u16)', "Cow<'static, str>", "&'static Board"]),
+                         pl_ty=rnd.choice(['P', 'P', 'C', '()', "&'static str", 'u8', 'Box<dyn Fn(u8) -> u8 + Send>', "Cow<'static, str>", 'impl Fn(u8) -> bool']),
                          data_tys=rnd.choice([None, None, ['D0', "&'static str", '()', "Cow<'static, str>", 'Vec<u8>', 'Session<\'static, u8>']]))
         cases.append(('wf', smgen.gen_wellformed(rnd, sh, idx=-1)))
     # a leaf literally called `state` (the keyword of superstate blocks) in a states list written without commas
